@@ -8,6 +8,7 @@ CONSTANTS
   ProcSeedKs = {0, 1, 2}
   RNG = "local"
   AddrBytes = "fill"
+  NetBase = "masked"
 VIEW view
 INVARIANTS TypeOK Contained WellFormed RandPortFromSubnet Pure NoSpuriousError
 CHECK_DEADLOCK FALSE
